@@ -128,6 +128,17 @@ Definition scorer_call (I : instance) (si : nat) : MR (list Z) :=
   | _ => raise EOther
   end.
 
+(** The scorer object is used on ANOTHER dispatcher in between
+    ([self._current_dispatcher is not dispatcher]): it drops the observers it
+    had cached and fetches them again at its next call on this dispatcher.
+    Nothing else changes here. *)
+Definition scorer_forget (si : nat) : MR unit :=
+  w <- @get robs ;;
+  match nth_error (objs w) si with
+  | Some (OScorer _ _) => set_objs (fun os : list robs => upd os si (OScorer None None))
+  | _ => ret tt
+  end.
+
 (** A fresh scorer object ([MostWorkRemainingScorer()]): lives in the store,
     never subscribed. *)
 Definition new_scorer : MR nat :=
